@@ -50,6 +50,7 @@ type worker[T any, JobType iJob[T]] struct {
 	waiters         *sync.Cond
 	tickers         []*time.Ticker
 	tickersDone     []chan struct{}
+	runGen          atomic.Uint32 // incremented when a run ends (Stop, Restart): event loops of earlier runs must not dispatch
 	mx              sync.RWMutex
 	ctx             context.Context
 	cancel          context.CancelFunc
@@ -244,6 +245,11 @@ func (w *worker[T, JobType]) Errs() <-chan error {
 
 // processNextJob processes the next Job in the queue.
 func (w *worker[T, JobType]) processNextJob() error {
+	return w.dispatchNextJob(w.runGen.Load())
+}
+
+// dispatchNextJob processes the next Job on behalf of the run with the given generation.
+func (w *worker[T, JobType]) dispatchNextJob(gen uint32) error {
 	queue, err := w.queues.next()
 
 	if err != nil {
@@ -260,6 +266,12 @@ func (w *worker[T, JobType]) processNextJob() error {
 	defer func() {
 		if !dispatched {
 			w.releaseWaiters(w.curProcessing.Add(^uint32(0)))
+
+			// the slot was held on behalf of an earlier run: the current event loop may have
+			// found the pool full in the meantime and gone back to sleep with jobs pending
+			if w.runGen.Load() != gen {
+				w.notifyToPullNextJobs()
+			}
 		}
 	}()
 
@@ -273,7 +285,9 @@ func (w *worker[T, JobType]) processNextJob() error {
 	// Pause/Stop may have intervened since the event loop checked the status.
 	// They store the status first and read curProcessing afterwards, we do the
 	// opposite, so at least one side sees the other: the job stays pending.
-	if w.IsPaused() || w.IsStopped() {
+	// The same holds for an event loop that outlives its run: Stop and Restart do not wait for
+	// it, and Restart must not find jobs dispatched behind its back while it rebuilds the pool.
+	if w.IsPaused() || w.IsStopped() || w.runGen.Load() != gen {
 		return nil
 	}
 
@@ -479,10 +493,10 @@ func (w *worker[T, JobType]) goListenToContext() {
 // It continuously checks if the worker is running, has available capacity, and if there are jobs in the queue
 // When all conditions are met, it processes the next job in the queue
 func (w *worker[T, JobType]) goEventLoop() {
-	go func(signal <-chan struct{}) {
+	go func(signal <-chan struct{}, gen uint32) {
 		for range signal {
-			for w.IsRunning() && w.curProcessing.Load() < w.concurrency.Load() && w.queues.Len() > 0 {
-				if err := w.processNextJob(); err != nil {
+			for w.runGen.Load() == gen && w.IsRunning() && w.curProcessing.Load() < w.concurrency.Load() && w.queues.Len() > 0 {
+				if err := w.dispatchNextJob(gen); err != nil {
 					w.sendError(err)
 				}
 			}
@@ -491,7 +505,7 @@ func (w *worker[T, JobType]) goEventLoop() {
 			// nobody else would wake the callers of WaitUntilFinished then
 			w.releaseWaiters(w.curProcessing.Load())
 		}
-	}(w.eventLoopSignal)
+	}(w.eventLoopSignal, w.runGen.Load())
 }
 
 func (w *worker[T, JobType]) stopTickers() {
@@ -513,6 +527,9 @@ func (w *worker[T, JobType]) stopTickers() {
 func (w *worker[T, JobType]) closeChannels() {
 	w.mx.Lock()
 	defer w.mx.Unlock()
+
+	// the run ends here: its event loop may still be inside a pass
+	w.runGen.Add(1)
 
 	if w.eventLoopSignal != nil {
 		close(w.eventLoopSignal)
